@@ -162,7 +162,11 @@ fn node_replay() {
 pub fn c07_call() {
     let nargs: u8 = any();
     let (has_target, declared, target_err): (bool, bool, bool) = (any(), any(), any());
-    crate::sym::assume(nargs <= 3);
+    let name_code: u8 = any();
+    crate::sym::assume(nargs <= 3 && name_code <= 2);
+    // host functions may be named like the parser's internal operators (leading '_' or '@'); only
+    // `f` and `_f` can be written in source, `@f` is replayed as `_f`
+    let fname = if name_code == 0 { "f" } else { "_f" };
     let log: Arc<Mutex<Vec<String>>> = Arc::new(Mutex::new(Vec::new()));
     let mut ctx = Context::default();
     for k in 0..3usize {
@@ -185,20 +189,20 @@ pub fn c07_call() {
     }
     if declared {
         let l = log.clone();
-        ctx.add_function("f", move |_ftx: &cel_interpreter::FunctionContext| -> i64 {
+        ctx.add_function(fname, move |_ftx: &cel_interpreter::FunctionContext| -> i64 {
             l.lock().unwrap().push("f".to_string());
             1
         });
     }
     let args: Vec<String> = (0..nargs).map(|k| format!("g{}()", k)).collect();
-    let src = if has_target { format!("t().f({})", args.join(", ")) } else { format!("f({})", args.join(", ")) };
+    let src = if has_target { format!("t().{}({})", fname, args.join(", ")) } else { format!("{}({})", fname, args.join(", ")) };
     let program = Program::compile(&src).expect("call source compiles");
     let got = program.execute(&ctx);
     let calls = log.lock().unwrap().clone();
     let mut want: Vec<String> = Vec::new();
     let ok;
     if !declared {
-        ok = matches!(&got, Err(ExecutionError::UndeclaredReference(n)) if n.as_str() == "f");
+        ok = matches!(&got, Err(ExecutionError::UndeclaredReference(n)) if n.as_str() == fname);
     } else if has_target && target_err {
         want.push("t".to_string());
         ok = matches!(&got, Err(ExecutionError::FunctionError { function, .. }) if function == "t");
